@@ -17,6 +17,7 @@
 //   W_CALLBACK  0 std::function | 1 tracked functor type as Policies::Callback
 //   W_FILL      byte pattern of the storage before construction
 #include "common.h"
+#include "fault.h"
 #include <eventpp/eventdispatcher.h>
 #include <eventpp/eventqueue.h>
 #include <eventpp/mixins/mixinfilter.h>
@@ -71,10 +72,10 @@ struct Payload
 	int uid, v, key;
 	Payload() : uid(0), v(0), key(0) { ++g_livePayload; regAdd(this); }
 	Payload(int uid, int v, int key) : uid(uid), v(v), key(key) { ++g_livePayload; regAdd(this); }
-	Payload(const Payload & o) : uid(o.uid), v(o.v), key(o.key) { regUse(&o); ++g_livePayload; regAdd(this); }
-	Payload(Payload && o) : uid(o.uid), v(o.v), key(o.key) { regUse(&o); o.uid = -1; o.v = -1000; o.key = 9; ++g_livePayload; regAdd(this); }
-	Payload & operator = (const Payload & o) { regUse(&o); regUse(this); uid = o.uid; v = o.v; key = o.key; return *this; }
-	Payload & operator = (Payload && o) { regUse(&o); regUse(this); uid = o.uid; v = o.v; key = o.key; if(&o != this) { o.uid = -1; o.v = -1000; o.key = 9; } return *this; }
+	Payload(const Payload & o) : uid(o.uid), v(o.v), key(o.key) { regUse(&o); copyFaultPoint(); ++g_livePayload; regAdd(this); }
+	Payload(Payload && o) : uid(o.uid), v(o.v), key(o.key) { regUse(&o); copyFaultPoint(); o.uid = -1; o.v = -1000; o.key = 9; ++g_livePayload; regAdd(this); }
+	Payload & operator = (const Payload & o) { regUse(&o); regUse(this); copyFaultPoint(); uid = o.uid; v = o.v; key = o.key; return *this; }
+	Payload & operator = (Payload && o) { regUse(&o); regUse(this); copyFaultPoint(); uid = o.uid; v = o.v; key = o.key; if(&o != this) { o.uid = -1; o.v = -1000; o.key = 9; } return *this; }
 	~Payload() { regDel(this); --g_livePayload; }
 };
 
@@ -132,7 +133,7 @@ struct Cb
 {
 	int id;
 	explicit Cb(int id = 0) : id(id) { ++g_live; regAdd(this); }
-	Cb(const Cb & o) : id(o.id) { regUse(&o); ++g_live; regAdd(this); }
+	Cb(const Cb & o) : id(o.id) { regUse(&o); copyFaultPoint(); ++g_live; regAdd(this); }
 	Cb & operator = (const Cb & o) { regUse(&o); regUse(this); id = o.id; return *this; }
 	~Cb() { regDel(this); --g_live; }
 	void operator() (ArgT p) const { regUse(this); onListener(id, 0, p); }
@@ -143,7 +144,7 @@ struct Fl
 {
 	int id;
 	explicit Fl(int id = 0) : id(id) { ++g_live; regAdd(this); }
-	Fl(const Fl & o) : id(o.id) { regUse(&o); ++g_live; regAdd(this); }
+	Fl(const Fl & o) : id(o.id) { regUse(&o); copyFaultPoint(); ++g_live; regAdd(this); }
 	Fl & operator = (const Fl & o) { regUse(&o); regUse(this); id = o.id; return *this; }
 	~Fl() { regDel(this); --g_live; }
 	bool operator() (Payload & p) const { regUse(this); return onFilter(id, &p, p); }
@@ -165,7 +166,7 @@ struct Pred
 
 // ---------------------------------------------------------------- policies
 template <typename K, typename V> using UserMap = std::map<K, V, std::less<K> >;
-struct ByArgCompare { template <typename T> bool operator() (const T & a, const T & b) const { return std::get<std::tuple_size<decltype(a.arguments)>::value - 1>(a.arguments).v < std::get<std::tuple_size<decltype(b.arguments)>::value - 1>(b.arguments).v; } };
+struct ByArgCompare { template <typename T> bool operator() (const T & a, const T & b) const { copyFaultPoint(); return std::get<std::tuple_size<decltype(a.arguments)>::value - 1>(a.arguments).v < std::get<std::tuple_size<decltype(b.arguments)>::value - 1>(b.arguments).v; } };
 struct DescCompare { template <typename T> bool operator() (const T & a, const T & b) const { return b.event < a.event; } };
 
 struct Pol
@@ -257,24 +258,26 @@ static int numberOf(const Handle & h)
 }
 
 static bool step();
-// runs script items as the body of a piece of user code, up to and including its return item
-static Op runUser()
+struct Thrown { int id; };          // what scripted user code throws
+// runs script items as the body of a piece of user code, up to and including its return item ("x" = it throws)
+static Op runUser(int id)
 {
 	++g_depth;
 	Op ret; ret.a = ret.b = 0;
 	while(ip < script.size()) {
 		const std::string & k = script[ip].k;
-		if(k == "t" || k == "pt" || k == "ft" || k == "ct") { ret = script[ip++]; break; }
+		if(k == "t" || k == "pt" || k == "ft" || k == "ct" || k == "x") { ret = script[ip++]; break; }
 		step();
 	}
 	--g_depth;
+	if(ret.k == "x") { evx("xt", 0, id, 0, 0, 0); throw Thrown{id}; }
 	return ret;
 }
 static bool onCondition(int id, const Payload & p)
 {
 	regUse(&p);
 	evx("kb", 0, id, p.v, 0, p.uid);
-	Op r = runUser();
+	Op r = runUser(id);
 	bool verdict = (r.k == "ct") ? r.a != 0 : false;
 	evx("ke", 0, id, 0, verdict ? 1 : 0, 0);
 	return verdict;
@@ -284,14 +287,14 @@ static void onListener(int id, int keySeen, const Payload & p)
 	regUse(&p);
 	if(keySeen) keySeen += g_keyOffset;
 	evx("en", keySeen, id, p.v, 0, p.uid);
-	runUser();
+	runUser(id);
 	evx("rt", 0, id, 0, 0, 0);
 }
 static bool onFilter(int id, Payload * mut, const Payload & p)
 {
 	regUse(&p);
 	evx("fb", 0, id, p.v, 0, p.uid);
-	Op r = runUser();
+	Op r = runUser(id);
 	int d = 0; bool verdict = true;
 	if(r.k == "ft") { d = r.a; verdict = r.b != 0; }
 	if(mut && d) mut->v += d; else d = 0;
@@ -302,7 +305,7 @@ static bool onPredicate(const Payload & p)
 {
 	regUse(&p);
 	evx("qb", 0, 0, p.v, 0, p.uid);
-	Op r = runUser();
+	Op r = runUser(0);
 	bool verdict = (r.k == "pt") ? r.a != 0 : false;
 	evx("qe", 0, 0, 0, verdict ? 1 : 0, 0);
 	return verdict;
@@ -321,15 +324,20 @@ template <typename Obj> static void callDispatch(Obj & o, int e, Payload & p)
 static void dispatch(int e, int v, int d = 1)
 {
 	int uid = ++g_uid, after;
+	bool threw = false;
 	evx("db", e + 2 * (d - 1), v, W_ARG == 2 ? 1 : 0, 0, uid);
 	{
 		Payload p(uid, v, e);
 		g_keyOffset = 2 * (d - 1);
-		callDispatch(d == 1 ? *q : *q2, e, p);
+		try { callDispatch(d == 1 ? *q : *q2, e, p); }
+		catch(const Thrown &) { threw = true; }
+		catch(const Fault &) { threw = true; }
+		catch(const std::bad_alloc &) { threw = true; }
 		g_keyOffset = 0;
 		after = p.v;
 		if(p.uid != uid) after = -1000;      // the caller's own object was moved from
 	}
+	if(threw) { evx("dx", 0, 0, 0, 0, uid); return; }      // the exception reached the caller of dispatch
 	evx("de", 0, after, 0, 0, uid);
 }
 #if W_OBJ == 1
@@ -361,10 +369,15 @@ static void process(int mode)
 {
 	evx("pb", 0, mode, 0, 0, 0);
 	bool r = false;
-	if(mode == 1) r = q->process();
-	else if(mode == 2) r = q->processOne();
-	else if(mode == 3) r = q->processIf(Pred());
-	else r = q->processUntil(Pred());
+	try {
+		if(mode == 1) r = q->process();
+		else if(mode == 2) r = q->processOne();
+		else if(mode == 3) r = q->processIf(Pred());
+		else r = q->processUntil(Pred());
+	}
+	catch(const Thrown &) { evx("px", 0, mode, 0, 0, 0); return; }          // the exception reached the caller of process*
+	catch(const Fault &) { evx("px", 0, mode, 0, 0, 0); return; }
+	catch(const std::bad_alloc &) { evx("px", 0, mode, 0, 0, 0); return; }
 	evx("pe", 0, mode, 0, r ? 1 : 0, 0);
 }
 template <typename QE> static const Payload & payloadOf(const QE & qe) { return std::get<std::tuple_size<decltype(qe.arguments)>::value - 1>(qe.arguments); }
@@ -431,7 +444,7 @@ static bool step()
 	else if(k == "cl") { q->clearEvents(); evx("cl", 0, 0, 0, 0, 0); }
 	else if(k == "eq") { bool r = q->emptyQueue(); evx("eq", 0, 0, 0, r ? 1 : 0, 0); }
 #endif
-	else if(k == "t" || k == "pt" || k == "ft" || k == "ct") { /* a return item with no user code running: ignore */ }
+	else if(k == "t" || k == "pt" || k == "ft" || k == "ct" || k == "x") { /* a return item with no user code running: ignore */ }
 	else { std::fprintf(stderr, "unknown op %s\n", k.c_str()); std::exit(2); }
 	return true;
 }
@@ -471,7 +484,7 @@ static void epilogue()
 	q->~Q(); q = 0;
 	q2->~Q(); q2 = 0;
 	H.clear(); HE.clear();
-	evx("rs", 0, 0, 0, 0, 0);
+	std::fprintf(g_out, "{\"e\":\"rs\",\"o\":0,\"a\":0,\"b\":0,\"r\":0,\"u\":0,\"lv\":%ld,\"pv\":%ld,\"n\":%ld}\n", g_live, g_livePayload, g_script);
 }
 
 int main(int argc, char ** argv)
@@ -482,10 +495,51 @@ int main(int argc, char ** argv)
 	static char buf[1 << 20];
 	std::setvbuf(g_out, buf, _IOFBF, sizeof(buf));
 	std::set_terminate(onTerminate);
+	const bool faultMode = argc > 2 && std::string(argv[2]) == "--fault";
+	const int faultKinds = argc > 3 ? std::atoi(argv[3]) : 3;
+	long faultRuns = 0, faultsFired = 0;
+	H.reserve(256); HE.reserve(256);
+#if W_FILTER == 1
+	FH.reserve(256);       // the harness's own bookkeeping must not be a fault point between the library call and the record
+#endif
 	std::string line;
 	while(std::getline(std::cin, line)) {
 		if(! parseScript(line, script)) continue;
 		armWatchdog(20);
+		if(faultMode) {
+			// the last operation of the script is attempted with the k-th fault point armed, k = 1, 2, ... until it runs untouched
+			for(long k = 1; k < 64; ++k) {
+				std::memset(g_storage, W_FILL, sizeof(g_storage));
+				q = new (g_storage) Q();
+				std::memset(g_storage2, W_FILL, sizeof(g_storage2));
+				q2 = new (g_storage2) Q();
+				R[1].reset(new SR(*q)); RT[1] = 1; for(int r = 2; r <= MaxR; ++r) R[r].reset();
+				H.clear(); HE.clear();
+#if W_FILTER == 1
+				FH.clear();
+#endif
+				ip = 0; g_uid = 0; g_depth = 0; g_nested = false;
+				while(ip + 1 < script.size()) step();
+				if(ip >= script.size()) { epilogue(); break; }
+				const std::string target = script[ip].k;
+				evx("fa", 0, (int)k, 0, 0, 0);
+				bool threw = false;
+				armFault(k, faultKinds);
+				try { step(); }
+				catch(const std::bad_alloc &) { threw = true; }
+				catch(const Fault &) { threw = true; }
+				const bool fired = g_faultFired;
+				disarmFault();
+				if(threw) evx(target == "tk" ? "xk" : "xf", 0, (int)k, 0, 0, 0);
+				else if(fired && target != "dp" && target.substr(0, 1) != "p") evx("xs", 0, (int)k, 0, 0, 0);     // swallowed
+				epilogue();
+				++faultRuns;
+				if(fired) ++faultsFired;
+				if(! fired) break;
+			}
+			++g_script;
+			continue;
+		}
 		std::memset(g_storage, W_FILL, sizeof(g_storage));
 		q = new (g_storage) Q();
 		std::memset(g_storage2, W_FILL, sizeof(g_storage2));
@@ -499,6 +553,6 @@ int main(int argc, char ** argv)
 	}
 	alarm(0);
 	std::fclose(g_out);
-	std::fprintf(stderr, "STATS {\"scripts\":%ld,\"nontrivial\":%ld,\"nested\":%ld}\n", g_script, g_nNontrivial, g_nNested);
+	std::fprintf(stderr, "STATS {\"scripts\":%ld,\"nontrivial\":%ld,\"nested\":%ld,\"fault_runs\":%ld,\"faults_fired\":%ld}\n", g_script, g_nNontrivial, g_nNested, faultRuns, faultsFired);
 	return 0;
 }
